@@ -15,6 +15,7 @@ import (
 	"io/ioutil"
 	"math/rand"
 	"os"
+	"reflect"
 	"strconv"
 	"strings"
 	"sync"
@@ -95,7 +96,19 @@ type harness struct {
 	drains map[int]*int64
 	stopDr chan struct{}
 	aggID  map[*aggregator.Aggregator]int
+	held   map[string][]heldSnap // per list: every slice seen published so far in this history
 }
+
+// heldSnap is one published slice as a dispatcher that loaded it holds it: the
+// very slice header (array, length at the time of publication); read returns
+// the ids in its cells NOW.
+type heldSnap struct {
+	ptr  uintptr
+	n    int
+	read func() []int
+}
+
+var listNames = []string{"main", "rw", "bl", "agg"}
 
 var cur atomic.Value // *harness, for the log hook
 
@@ -262,7 +275,7 @@ func newHarness(t *testing.T, lg *hx.Log, kind string, rng *rand.Rand) *harness 
 	h := &harness{t: t, lg: lg, kind: kind, tag: fmt.Sprintf("%sx%d", runTag, n),
 		disp: map[int]*dispState{}, destID: map[string]int{}, dests: map[int]*destination.Destination{},
 		sends: map[int]int{}, drains: map[int]*int64{}, stopDr: make(chan struct{}),
-		aggID: map[*aggregator.Aggregator]int{}}
+		aggID: map[*aggregator.Aggregator]int{}, held: map[string][]heldSnap{}}
 	h.useCmd = func() bool { return rng.Intn(2) == 0 }
 	cfg, err := table.NewTableConfig("/dev/shm/verif-c18-nospool", "24h",
 		validate.LevelLegacy{Level: m20.NoneLegacy}, validate.LevelM20{Level: m20.NoneM20}, false)
@@ -362,64 +375,92 @@ func (h *harness) listOf() string {
 	return "main"
 }
 
-// raw: the ids in the cells of the currently published slice, plus a reader of
-// the very same cells for later (what a dispatcher that loaded it now would see)
-func (h *harness) raw(list string) (ids []int, again func() []int) {
+// raw: the currently published slice of a list, exactly as a dispatcher that
+// loads the configuration now holds it (same array, same length): its identity
+// and a reader of its cells for later
+func (h *harness) raw(list string) heldSnap {
 	routes, bl, rws, aggs := h.tbl.VerifRawConfig()
 	switch list {
 	case "rw":
-		f := func() []int {
+		return heldSnap{reflect.ValueOf(rws).Pointer(), len(rws), func() []int {
 			o := make([]int, len(rws))
 			for i := range rws {
 				o[i] = rwID(rws[i])
 			}
 			return o
-		}
-		return f(), f
+		}}
 	case "bl":
-		f := func() []int {
+		return heldSnap{reflect.ValueOf(bl).Pointer(), len(bl), func() []int {
 			o := make([]int, len(bl))
 			for i := range bl {
-				o[i] = idFromPrefix(bl[i].Prefix, "bl")
+				o[i] = -1
+				if bl[i] != nil {
+					o[i] = idFromPrefix(bl[i].Prefix, "bl")
+				}
 			}
 			return o
-		}
-		return f(), f
+		}}
 	case "agg":
-		f := func() []int {
+		return heldSnap{reflect.ValueOf(aggs).Pointer(), len(aggs), func() []int {
 			o := make([]int, len(aggs))
 			for i := range aggs {
-				o[i] = aggIDOf(aggs[i])
+				o[i] = -1
+				if aggs[i] != nil {
+					o[i] = aggIDOf(aggs[i])
+				}
 			}
 			return o
-		}
-		return f(), f
+		}}
 	}
 	if h.kind == "dest" {
 		ds := route.VerifRawDests(h.rt)
-		f := func() []int {
+		return heldSnap{reflect.ValueOf(ds).Pointer(), len(ds), func() []int {
 			o := make([]int, len(ds))
 			h.mu.Lock()
 			for i := range ds {
-				id, ok := h.destID[ds[i].Key]
-				if !ok {
-					id = -1
+				id := -1
+				if ds[i] != nil {
+					if x, ok := h.destID[ds[i].Key]; ok {
+						id = x
+					}
 				}
 				o[i] = id
 			}
 			h.mu.Unlock()
 			return o
-		}
-		return f(), f
+		}}
 	}
-	f := func() []int {
+	return heldSnap{reflect.ValueOf(routes).Pointer(), len(routes), func() []int {
 		o := make([]int, len(routes))
 		for i := range routes {
-			o[i] = h.routeID(routes[i].Key())
+			o[i] = -1
+			if routes[i] != nil {
+				o[i] = h.routeID(routes[i].Key())
+			}
 		}
 		return o
+	}}
+}
+
+// capture adds the slices that are published now to the held ones (a slice
+// header that is still the one held last for its list is not added twice) and
+// returns, per list, what EVERY held slice reads now, oldest first.
+func (h *harness) capture() map[string][][]int {
+	out := map[string][][]int{}
+	for _, l := range listNames {
+		s := h.raw(l)
+		hs := h.held[l]
+		if len(hs) == 0 || hs[len(hs)-1].ptr != s.ptr || hs[len(hs)-1].n != s.n {
+			hs = append(hs, s)
+			h.held[l] = hs
+		}
+		rd := make([][]int, len(hs))
+		for i := range hs {
+			rd[i] = hs[i].read()
+		}
+		out[l] = rd
 	}
-	return f(), f
+	return out
 }
 
 // view: the list as Table.Snapshot() shows it, [id, f] pairs
@@ -519,7 +560,6 @@ func (h *harness) drainRemoved(before map[*destination.Destination]bool) {
 // doOp performs one admin operation on the real table and records it
 func (h *harness) doOp(list string, o step) {
 	h.lg.Emit(map[string]interface{}{"ev": "opbegin", "l": list, "op": o.Op, "e": o.E, "f": o.F, "i": o.I, "k": o.K})
-	before, again := h.raw(list)
 	var liveBefore map[*destination.Destination]bool
 	if h.kind == "dest" || h.kind == "rroute" {
 		liveBefore = h.liveDests()
@@ -660,13 +700,14 @@ func (h *harness) doOp(list string, o step) {
 	if liveBefore != nil {
 		h.drainRemoved(liveBefore)
 	}
-	after := again()
+	// white box: every slice published so far (this operation's included), read now
+	snaps := h.capture()
 	errs := ""
 	if err != nil {
 		errs = err.Error()
 	}
 	h.lg.Emit(map[string]interface{}{"ev": "opdone", "err": err != nil, "errs": errs, "via": via, "view": h.view(list),
-		"before": before, "after": after})
+		"snaps": snaps})
 }
 
 func (h *harness) routesRaw() []route.Route {
